@@ -823,6 +823,7 @@ class ParametricSpectrum(Spectrum):
         self.__ma_order = ma_order
         self.ar_order = ar_order
         self.ma_order = ma_order
+        self.__lag = None
         self.lag = lag
         # will be populated when running an ARMA PSD estimate
         self.__ar = None
@@ -840,6 +841,16 @@ class ParametricSpectrum(Spectrum):
     def _get_ar_order(self):
         return self.__ar_order
     ar_order = property(fget=_get_ar_order, fset=_set_ar_order, doc="")
+
+    def _set_lag(self, lag):
+        if lag == self.__lag:
+            return
+        self.__lag = lag
+        self.modified = True
+    def _get_lag(self):
+        return self.__lag
+    lag = property(fget=_get_lag, fset=_set_lag, doc="""Getter/Setter for the number of
+        correlation lags used by the ARMA/MA estimators.""")
 
     def _set_ma_order(self, ma):
         if ma is not None:
